@@ -27,8 +27,8 @@ PROP = dict(
             "facts about host state passed to the model as inputs: sector present, registry entry found/put accepted, unlock-key specifier matches; instruction prices computed by core's HostPriceTable cost functions",
             "panic site attribution by parsing the dead host process's goroutine dump",
         ],
-        level_text="slices_in_bounds/no_panic proved in Lean for ALL operands, program-data sizes and sector counts for the repaired guards (accessors, every MDM instruction, executor, RHP3 handler, RHP2 sector-roots/read/write/form, RHP3 FundAccount/AccountBalance/LatestRevision/UpdatePriceTable, ContractUpdater, registry recorder, cost multiplications); for the guards as written the property is FALSE: concrete witnesses by `decide`, `_partial` theorems under the excluding hypotheses; reject_noop proved for the handler model (revision, roots unchanged; charge <= budget; refused => no charge). Tie: each witness and thousands of seeded hostile requests are executed on the real programData/ContractUpdater (in-process) and on a real host node over RHP2/RHP3 TCP sessions (child processes; a host crash is observed as process death), and replayed on the model driver (outcome class, failing instruction index, charged amount, output lengths, roots/revision snapshots)",
-        level_note="partial: hangs only detected up to a 20 s per-request timeout; decoding inside go.sia.tech/core is attributed, not modelled (byte-mutation cases are monitor-only); RHP4 contractor/sector interfaces are not driven by this engine; RHP2 update-action commit outcome (C02) and renewals are outside the model",
+        level_text="slices_in_bounds/no_panic proved in Lean for ALL operands, program-data sizes and sector counts for the repaired guards (accessors, every MDM instruction, executor, RHP3 handler, RHP2 sector-roots/read/write/form, RHP3 FundAccount/AccountBalance/LatestRevision/UpdatePriceTable, RHP3 RenewContract, RHP2 RenewAndClearContract/FormContract, ContractUpdater, registry recorder, cost multiplications); for the guards as written the property is FALSE: concrete witnesses by `decide`, `_partial` theorems under the excluding hypotheses; reject_noop proved for the handler model (revision, roots unchanged; charge <= budget; refused => no charge). Tie: each witness and thousands of seeded hostile requests are executed on the real programData/ContractUpdater (in-process) and on a real host node over RHP2/RHP3 TCP sessions (child processes; a host crash is observed as process death), and replayed on the model driver (outcome class, failing instruction index, charged amount, output lengths, roots/revision snapshots)",
+        level_note="partial: hangs only detected up to a 20 s per-request timeout; decoding inside go.sia.tech/core is attributed, not modelled (byte-mutation cases are monitor-only); RHP4 contractor/sector interfaces are not driven by this engine; RHP2 update-action commit outcome (C02) is outside the model; for renewals/formations the handlers' indexes, slice->array conversions and guard order are modelled, the value-level validator clauses (payout arithmetic, addresses, unlock hashes, signatures, transaction pool) enter as facts of the request (they belong to C07/C12)",
         assumptions=["'rejected leaves balances unchanged' applies to requests refused before execution; a program that ran and failed is charged for what ran minus the storage refund, never more than its budget (DESIGN §6.3)",
                      "an RHP2 read/sector-roots request whose payment revision was committed and which then fails to be served (unknown sector) is 'paid then failed', not 'rejected'"],
     )
